@@ -164,7 +164,7 @@ class PoolAnalysis:
                         rebinding.append(n)
                     if isinstance(t, ast.Attribute) and t.attr in AVAIL and norm.is_name(t.value, "self"):
                         self.deltas.append(self._delta(n, t))
-        self.deltas.sort(key=lambda d: d.node.lineno)
+        self.deltas.sort(key=lambda d: pos(f, d.node))
         consumed: Set[int] = set()
         # deferred idiom: D = [] ... for c in self.L: ... D.append(c) ... for x in D: self.L.remove(x) [self.M.append(x)]
         for lp in [n for n in own_nodes(f.node) if isinstance(n, ast.For) and isinstance(n.iter, ast.Name) and isinstance(n.target, ast.Name)]:
@@ -178,14 +178,14 @@ class PoolAnalysis:
                 continue
             # the reaching `D = []`
             defs = [n for n in own_nodes(f.node) if isinstance(n, ast.Assign) and len(n.targets) == 1 and norm.is_name(n.targets[0], D)
-                    and isinstance(n.value, ast.List) and not n.value.elts and n.lineno < lp.lineno and self.g.dominates(n, lp)]
+                    and isinstance(n.value, ast.List) and not n.value.elts and before(f, n, lp) and self.g.dominates(n, lp)]
             if not defs:
                 continue
-            d0 = max(defs, key=lambda n: n.lineno)
+            d0 = max(defs, key=lambda n: pos(f, n))
             collects = [c for c in calls_named(f, "append") if isinstance(c.func, ast.Attribute) and norm.is_name(c.func.value, D)
-                        and d0.lineno < c.lineno < lp.lineno]
+                        and pos(f, d0) < pos(f, c) < pos(f, lp)]
             other_uses = [n for n in own_nodes(f.node) if isinstance(n, ast.Call) and isinstance(n.func, ast.Attribute)
-                          and norm.is_name(n.func.value, D) and n.func.attr != "append" and d0.lineno < n.lineno < lp.lineno]
+                          and norm.is_name(n.func.value, D) and n.func.attr != "append" and pos(f, d0) < pos(f, n) < pos(f, lp)]
             if not collects or other_uses:
                 continue
             src, dst = rem[0][1], (app[0][1] if app else "gone")
@@ -209,7 +209,7 @@ class PoolAnalysis:
                 blk = block_of(stmt_of(c))
                 ctor = None
                 for s in blk:
-                    if s.lineno < c.lineno and isinstance(s, ast.Assign) and len(s.targets) == 1 and norm.is_name(s.targets[0], x) \
+                    if before(f, s, c) and isinstance(s, ast.Assign) and len(s.targets) == 1 and norm.is_name(s.targets[0], x) \
                             and isinstance(s.value, ast.Call) and norm.call_name(s.value) == "Container":
                         ctor = s.value
                 if ctor is not None:
